@@ -345,6 +345,16 @@ pub fn c06(ctx: &Ctx) -> (CheckMeta, Outcome) {
         }
         out.merge(o4);
     }
+    // the "length of the next codeword" helpers of the table modules (len_table_be/le): C05's direct-call
+    // section, keeping its length findings
+    {
+        let mut o5 = crate::props::tables::helper_functions(ctx);
+        o5.violations.retain(|v| v.op_class == "len_table");
+        for v in o5.violations.iter_mut() {
+            v.property = "C06".into();
+        }
+        out.merge(o5);
+    }
     // (4) the byte-level VByte writers report what they wrote: into sinks that accept 1, 2 or 3 bytes per
     // call the returned count must still be byte_len_vbyte(v) and that many bytes must be in the sink
     if crate::pool::is_primary() {
@@ -395,7 +405,7 @@ pub fn c06(ctx: &Ctx) -> (CheckMeta, Outcome) {
     let meta = CheckMeta {
         property: "C06".into(),
         level: "exploration".into(),
-        rule: "bounded-exhaustive: (1) every library length function (len_*, len_*_param with tables on/off, byte_len_vbyte, Codes::len, FuncCodeLen, ConstCode::len) vs the reference codeword length for all codes/parameters, all values below 2^20 (2^22 thorough) for core codes, below 2^10 otherwise, every 2^i+-2, every code-specific step point, domain maxima, seeded extras (no codeword-length restriction); (2) streams as in C03: value returned by write_*, growth of the real stream and bit_pos advance of every read variant, also for codewords that end with the last bit of a strict stream; (3) the same streams written and read through every dispatch mechanism (Codes dynamic/static, FuncCodeReader/Writer, factory readers, ConstCode, the statistics wrapper): returned lengths and bits consumed; (4) the byte-level VByte writers into sinks accepting 1-3 bytes per call: returned count = bytes in the sink = byte_len_vbyte; non-trivial = value at which the reference length steps, or value > 2^32".into(),
+        rule: "bounded-exhaustive: (1) every library length function (len_*, len_*_param with tables on/off, byte_len_vbyte, Codes::len, FuncCodeLen, ConstCode::len) vs the reference codeword length for all codes/parameters, all values below 2^20 (2^22 thorough) for core codes, below 2^10 otherwise, every 2^i+-2, every code-specific step point, domain maxima, seeded extras (no codeword-length restriction); (2) streams as in C03: value returned by write_*, growth of the real stream and bit_pos advance of every read variant, also for codewords that end with the last bit of a strict stream; (3) the same streams written and read through every dispatch mechanism (Codes dynamic/static, FuncCodeReader/Writer, factory readers, ConstCode, the statistics wrapper): returned lengths and bits consumed; the len_table_be/le helpers of the three table modules on every index; (4) the byte-level VByte writers into sinks accepting 1-3 bytes per call: returned count = bytes in the sink = byte_len_vbyte; non-trivial = value at which the reference length steps, or value > 2^32".into(),
         assumptions: vec!["reference length = length of the reference codeword (harness/src/model.rs)".into()],
     };
     (meta, out)
